@@ -397,11 +397,25 @@ impl<C: Cfg> World<C> {
     /// next (false) / next_back (true) calls, possibly continuing past exhaustion. Kind 7 clones
     /// an `IterRef` after `clone_at` calls and advances original and clone independently.
     pub fn do_iter(&mut self, v: usize, kind: u32, calls: &[bool], clone_at: usize, tr: &mut String) {
+        self.do_iter_ext(v, kind, calls, clone_at, &[], 0, tr)
+    }
+
+    /// `skips[k]` (if present and > 0): call k is `nth(skips[k]-1+...)`: it first skips that many
+    /// items (nth / nth_back instead of next / next_back). `finish`: 0 drop, 1 count(), 2 last(),
+    /// 3 rev().count() of what is left.
+    #[allow(clippy::too_many_arguments)]
+    pub fn do_iter_ext(&mut self, v: usize, kind: u32, calls: &[bool], clone_at: usize, skips: &[u8], finish: u32, tr: &mut String) {
         const NAMES: [&str; 8] = ["iter", "iter_mut", "(&v).into_iter", "(&mut v).into_iter", "typed.iter", "typed.iter_mut", "typed.as_slice.iter", "iter.clone"];
         let kind = kind % 8;
         let name = NAMES[kind as usize];
         let pat: String = calls.iter().map(|b| if *b { 'B' } else { 'F' }).collect();
         let _ = write!(tr, "{}(v{}, \"{}\"", name, v, pat);
+        if skips.iter().any(|s| *s > 0) {
+            let _ = write!(tr, ", nth-skips {:?}", skips);
+        }
+        if finish % 4 != 0 {
+            let _ = write!(tr, ", finish {}", ["drop", "count", "last", "rev.count"][finish as usize % 4]);
+        }
         if kind == 7 {
             let _ = write!(tr, ", clone after {} calls", clone_at.min(calls.len()));
         }
@@ -412,7 +426,7 @@ impl<C: Cfg> World<C> {
         let mut out2: Vec<Option<u32>> = Vec::with_capacity(len + calls.len() + 2);
         let mut hint_bad: Option<(usize, (usize, Option<usize>), usize, usize)> = None;
         macro_rules! walk {
-            ($it:expr, $get:expr, $calls:expr, $out:expr, $done:expr) => {{
+            ($it:expr, $get:expr, $calls:expr, $out:expr, $done:expr, $use_skips:expr) => {{
                 let mut yielded = $done;
                 for (k, back) in $calls.iter().enumerate() {
                     let remaining = len - yielded.min(len);
@@ -421,7 +435,14 @@ impl<C: Cfg> World<C> {
                     if (sh != (remaining, Some(remaining)) || l != remaining) && hint_bad.is_none() {
                         hint_bad = Some((k, sh, l, remaining));
                     }
-                    let e = if *back { $it.next_back() } else { $it.next() };
+                    let sk = if $use_skips { skips.get(k).copied().unwrap_or(0) as usize } else { 0 };
+                    let e = match (*back, sk) {
+                        (false, 0) => $it.next(),
+                        (true, 0) => $it.next_back(),
+                        (false, n) => $it.nth(n),
+                        (true, n) => $it.nth_back(n),
+                    };
+                    yielded += sk.min(remaining);
                     match e {
                         None => $out.push(None),
                         Some(e) => {
@@ -434,47 +455,72 @@ impl<C: Cfg> World<C> {
                 yielded
             }};
         }
+        // what is left is consumed by an adaptor
+        let mut fin_obs: Option<(usize, Option<u32>)> = None;
+        macro_rules! finish {
+            ($it:expr, $get:expr) => {{
+                match finish % 4 {
+                    1 => fin_obs = Some(($it.count(), None)),
+                    2 => {
+                        let l = $it.last();
+                        #[allow(clippy::redundant_closure_call)]
+                        {
+                            fin_obs = Some((usize::MAX, l.map(|e| ($get)(e).unwrap_or(u32::MAX))));
+                        }
+                    }
+                    3 => fin_obs = Some(($it.rev().count(), None)),
+                    _ => drop($it),
+                }
+            }};
+        }
         let ca = clone_at.min(calls.len());
         let r = call(|| match kind {
             0 => {
                 let mut it = vec.iter();
-                walk!(it, |e: any_vec::element::ElementRef<C::Tr, C::M>| e.downcast_ref::<C::T>().and_then(|x| x.payload()), calls, out, 0usize);
+                walk!(it, |e: any_vec::element::ElementRef<C::Tr, C::M>| e.downcast_ref::<C::T>().and_then(|x| x.payload()), calls, out, 0usize, true);
+                finish!(it, |e: any_vec::element::ElementRef<C::Tr, C::M>| e.downcast_ref::<C::T>().and_then(|x| x.payload()));
             }
             1 => {
                 let mut it = vec.iter_mut();
-                walk!(it, |mut e: any_vec::element::ElementMut<C::Tr, C::M>| e.downcast_mut::<C::T>().and_then(|x| x.payload()), calls, out, 0usize);
+                walk!(it, |mut e: any_vec::element::ElementMut<C::Tr, C::M>| e.downcast_mut::<C::T>().and_then(|x| x.payload()), calls, out, 0usize, true);
+                finish!(it, |mut e: any_vec::element::ElementMut<C::Tr, C::M>| e.downcast_mut::<C::T>().and_then(|x| x.payload()));
             }
             2 => {
                 let mut it = (&*vec).into_iter();
-                walk!(it, |e: any_vec::element::ElementRef<C::Tr, C::M>| e.downcast_ref::<C::T>().and_then(|x| x.payload()), calls, out, 0usize);
+                walk!(it, |e: any_vec::element::ElementRef<C::Tr, C::M>| e.downcast_ref::<C::T>().and_then(|x| x.payload()), calls, out, 0usize, true);
+                finish!(it, |e: any_vec::element::ElementRef<C::Tr, C::M>| e.downcast_ref::<C::T>().and_then(|x| x.payload()));
             }
             3 => {
                 let mut it = (&mut *vec).into_iter();
-                walk!(it, |mut e: any_vec::element::ElementMut<C::Tr, C::M>| e.downcast_mut::<C::T>().and_then(|x| x.payload()), calls, out, 0usize);
+                walk!(it, |mut e: any_vec::element::ElementMut<C::Tr, C::M>| e.downcast_mut::<C::T>().and_then(|x| x.payload()), calls, out, 0usize, true);
+                finish!(it, |mut e: any_vec::element::ElementMut<C::Tr, C::M>| e.downcast_mut::<C::T>().and_then(|x| x.payload()));
             }
             4 => {
                 let mut it = vec.downcast_ref::<C::T>().unwrap().iter();
-                walk!(it, |x: &C::T| x.payload(), calls, out, 0usize);
+                walk!(it, |x: &C::T| x.payload(), calls, out, 0usize, true);
+                finish!(it, |x: &C::T| x.payload());
             }
             5 => {
                 let mut it = vec.downcast_mut::<C::T>().unwrap().iter_mut();
-                walk!(it, |x: &mut C::T| x.payload(), calls, out, 0usize);
+                walk!(it, |x: &mut C::T| x.payload(), calls, out, 0usize, true);
+                finish!(it, |x: &mut C::T| x.payload());
             }
             6 => {
                 let mut it = vec.downcast_ref::<C::T>().unwrap().as_slice().iter();
-                walk!(it, |x: &C::T| x.payload(), calls, out, 0usize);
+                walk!(it, |x: &C::T| x.payload(), calls, out, 0usize, true);
+                finish!(it, |x: &C::T| x.payload());
             }
             _ => {
                 let get = |e: any_vec::element::ElementRef<C::Tr, C::M>| e.downcast_ref::<C::T>().and_then(|x| x.payload());
                 let mut it = vec.iter();
-                let done = walk!(it, get, calls[..ca], out, 0usize);
+                let done = walk!(it, get, calls[..ca], out, 0usize, false);
                 let mut cl = it.clone();
                 // the clone continues with the rest of the string ...
-                walk!(cl, get, calls[ca..], out, done);
+                walk!(cl, get, calls[ca..], out, done, false);
                 // ... the original independently drains everything front to back (+1 call)
                 static FALSES: [bool; 2048] = [false; 2048];
                 let rest = &FALSES[..(len + 1 - done.min(len)).min(2048)];
-                walk!(it, get, rest, out2, done);
+                walk!(it, get, rest, out2, done, false);
             }
         });
         self.expect_panic_m(MON_ITER | MON_MODEL, name, &r, false, "");
@@ -493,6 +539,13 @@ impl<C: Cfg> World<C> {
         for (k, back) in calls.iter().enumerate() {
             if k == ca {
                 state_at_clone = (lo, hi);
+            }
+            let sk = if kind != 7 { skips.get(k).copied().unwrap_or(0) as usize } else { 0 };
+            let sk = sk.min(hi - lo);
+            if *back {
+                hi -= sk;
+            } else {
+                lo += sk;
             }
             if lo == hi {
                 want.push(None);
@@ -519,6 +572,22 @@ impl<C: Cfg> World<C> {
                 self.fail(MON_ITER, "iter.clone:independence", format!("after cloning an IterRef and advancing the clone, the original yielded {:?}, expected {:?}", out2, want2));
                 return;
             }
+        }
+        if let Some((cnt, last)) = fin_obs {
+            let rem = hi - lo;
+            let ok = match finish % 4 {
+                1 | 3 => cnt == rem,
+                2 => last == if rem == 0 { None } else { Some(m[hi - 1]) },
+                _ => true,
+            };
+            if !ok {
+                self.fail(MON_ITER | MON_MODEL, format!("{}:adaptor", name), format!("{} after calls \"{}\": {} of the remaining {} items gave {:?}", name, pat, ["drop", "count()", "last()", "rev().count()"][finish as usize % 4], rem, fin_obs));
+                return;
+            }
+        }
+        if skips.iter().any(|s| *s > 0) {
+            self.nontrivial = true;
+            self.class("nth");
         }
         let mixed = calls.iter().any(|b| *b) && calls.iter().any(|b| !*b);
         if mixed || calls.len() > len {
